@@ -15,10 +15,12 @@ RULE = ("`python -m jasm.main` is run in a scratch working directory for rule/in
         "MatchConfig: RESULT found iff the API list is non-empty, one 'Matched address' line per API element, same order and "
         "text; exit status 0. Argument validation (no input, both -s and -b, no -p) and failing operations (missing file, "
         "malformed rule) must exit non-zero. Non-trivial = the API reports at least one match or the case is an argument / "
-        "failure case; distinct = (rule, input, option set).")
+        "failure case; distinct = (rule, input, option set). Probes identical at every seed: every ordered selection of 1-3 of four macro files (one name "
+        "defined differently in two files, one macro using a macro of another file) and a relocatable-object listing with repeated addresses and records "
+        "in all four mode combinations; in 30 % of the comparisons the API is asked twice on one matcher object and the command must agree with the repeated answer.")
 FLOOR = {"quick": 60, "thorough": 800}
 ANCHOR_HINTS = ["main.py", "parse_arguments", "logging_config", "matched_observers"]
-REQUIRED_EVENTS = ["cli_runs_compared"]
+REQUIRED_EVENTS = ["cli_runs_compared", "macro_order_probes", "repeated_address_probes"]
 
 MATCHED = re.compile(r" - INFO - Matched address: (.*)$")
 
@@ -61,6 +63,13 @@ def compare(ctx, ws, cwd, rule_path, inp, binary, all_matches, only_addr, macros
     if macros:
         args += ["--macros"] + macros
     api = real.match(rule_path, inp, binary=binary, ret="list", search="all" if all_matches else "first", only_addr=only_addr, macros=macros)
+    if api[0] == "ok" and ctx.rng.random() < 0.3:
+        # "the library API" also when one matcher object is asked again: it still reports what the command reports
+        tw = real.match_twice(rule_path, inp, binary=binary, ret="list", search="all" if all_matches else "first", only_addr=only_addr, macros=macros)
+        ctx.ran(2)
+        ctx.event("api_asked_twice_on_one_object")
+        if tw[0] != "ok" or list(tw[1]) != list(api[1]) or list(tw[2]) != list(api[1]):
+            api = ("ok", list(tw[2]) if tw[0] == "ok" else [], api[2])        # judge the command against the repeated answer: they must still agree
     p = run_cli(ws, args, cwd)
     ctx.ran(2)
     if p is None:
@@ -136,6 +145,69 @@ def arg_cases(ctx, ws, cwd, rule_path, asm, elfp):
             ctx.sample("arguments", {"case": name, "exit": p.returncode, "stderr_tail": p.stderr[-160:]})
 
 
+RELOC = """
+u.o:     file format elf64-x86-64
+
+
+Disassembly of section .text.f:
+
+0000000000000000 <f>:
+   0:\t55                   \tpush   %rbp
+   1:\t48 89 e5             \tmov    %rsp,%rbp
+   4:\tc3                   \tret
+
+Disassembly of section .text.g:
+
+0000000000000000 <g>:
+   0:\t55                   \tpush   %rbp
+   1:\t48 89 e5             \tmov    %rsp,%rbp
+   4:\t90                   \tnop
+   5:\tc3                   \tret
+
+Disassembly of section .text.h:
+
+0000000000000000 <h>:
+   0:\t55                   \tpush   %rbp
+   1:\t48 89 e5             \tmov    %rsp,%rbp
+   4:\tc3                   \tret
+"""
+
+
+def probe_cases(ctx, ws, cwd, asm0, which, part=0, nparts=1):
+    """The same probes at every seed: (0) every ordered selection of the macro files (one name defined differently in two files, one
+    macro using a macro of another file), (1) a relocatable-object listing in which addresses and whole records repeat, in all four
+    mode combinations, with and without logging options."""
+    import itertools
+    if which == 0:
+        files = {"ma": ws.write("p_ma.yaml", real.dump_rule({"macros": [{"name": "@m", "pattern": "push"}, {"name": "@k", "pattern": "call"}]})),
+                 "mb": ws.write("p_mb.yaml", real.dump_rule({"macros": [{"name": "@m", "pattern": "zzz"}]})),
+                 "zz_first": ws.write("p_zz_first.yaml", real.dump_rule({"macros": [{"name": "@two", "pattern": [{"$and": ["@k", "push"]}]}]})),
+                 "mc": ws.write("p_mc.yaml", real.dump_rule({"macros": [{"name": "@unused", "pattern": "hlt"}]}))}
+        combos = [c for r in (1, 2, 3) for c in itertools.permutations(sorted(files), r)]
+        for ci, combo in enumerate(combos):
+            if ci % nparts != part:
+                continue
+            if True:
+                macros = [files[x] for x in combo]
+                pats = [["push"]]
+                if "ma" in combo or "mb" in combo:
+                    pats.append(["@m", "@m"])
+                if "zz_first" in combo and "ma" in combo:
+                    pats.append(["@two"])
+                for pat in pats:
+                    rp = ws.write("probe_rule.yaml", real.dump_rule({"pattern": pat}))
+                    compare(ctx, ws, cwd, rp, asm0, False, True, True, macros, "probe-macro-order")
+                    ctx.event("macro_order_probes")
+    else:
+        lp = ws.write("reloc.s", RELOC)
+        for pat in (["push", "mov"], [{"push": ["%rbp"]}], ["ret"], ["mov", "ret"]):
+            rp = ws.write("probe_rule.yaml", real.dump_rule({"pattern": pat}))
+            for am in (False, True):
+                for oa in (False, True):
+                    compare(ctx, ws, cwd, rp, lp, False, am, oa, None, "probe-repeated-addresses", ("--debug",) if (am and oa) else ())
+                    ctx.event("repeated_address_probes")
+
+
 def run_shard(ctx):
     ws = real.Workspace()
     rng = ctx.rng
@@ -145,6 +217,11 @@ def run_shard(ctx):
     asm0 = ws.write("near.s", c14.NEAR)
     if ctx.shard == 0:
         arg_cases(ctx, ws, cwd, ws.write("ok.yaml", "pattern:\n  - push\n"), asm0, elfp)
+    if ctx.shard == 1 % ctx.nshards:
+        probe_cases(ctx, ws, cwd, asm0, 1)
+    parts = max(1, min(8, ctx.nshards - 2))
+    if 2 <= ctx.shard < 2 + parts or ctx.nshards <= 2:
+        probe_cases(ctx, ws, cwd, asm0, 0, (ctx.shard - 2) % parts, parts if ctx.nshards > 2 else 1)
     n = ctx.share(230, 8000)
     done = 0
     while done < n:
